@@ -14,7 +14,9 @@ CONSTANTS Sids,        \* server ids
           Lids,        \* listener names (numbers here: they register in increasing order, which halves the symmetric cases)
           Thresholds,  \* thresholds a listener may ask for
           MaxObjs, MaxTime,
-          MaxConnects  \* bound on the connections one object establishes
+          MaxConnects, \* bound on the connections one object establishes
+          MaxTotalConnects, \* bound on the connections established altogether
+          WithDead     \* BOOLEAN: explore connections that die before the version answer (a no-op of the Spec)
 
 VARIABLES S,        \* the broker and its server objects (StorageClientState)
           link,     \* ghost: objects whose connection is up, as the network knows it
@@ -55,6 +57,7 @@ DoAnnounce(sid, k) ==
 
 DoConnect(o, v) ==
   /\ CanConnect(S, o) /\ o \notin link /\ S.objs[o].nots < MaxConnects
+  /\ SumOver([x \in 1..Len(S.objs) |-> S.objs[x].nots], 1..Len(S.objs)) < MaxTotalConnects
   /\ S' = Connect(S, o, v)
   /\ link' = link \cup {o}
   /\ Observe(S', link')
@@ -62,7 +65,7 @@ DoConnect(o, v) ==
   /\ UNCHANGED <<annLog, reg>>
 
 DoConnectDead(o) ==
-  /\ CanConnect(S, o) /\ o \notin link
+  /\ WithDead /\ CanConnect(S, o) /\ o \notin link
   /\ S' = ConnectDead(S, o)
   /\ UNCHANGED <<link, peak, annLog, lastVer, reg>>
 
